@@ -74,19 +74,24 @@ def cer(host=PEER[0], realm=PEER[1], hbh=1, e2e=1, flags=0x80, apps=(), extra=()
     return R.LMsg(1, flags, 257, 0, hbh, e2e, a + list(extra))
 
 
-def cea(host=PEER[0], realm=PEER[1], hbh=1, e2e=1, result=2001, flags=0x00, apps=()):
+def cea(host=PEER[0], realm=PEER[1], hbh=1, e2e=1, result=2001, flags=0x00, apps=(), extra=()):
     a = [avp(268, u32(result))] + origin(host, realm) + [avp(257, b"\x00\x01\x7f\x00\x00\x02"), avp(266, u32(0)), avp(269, b"peer-sim", flags=0)]
     for app in apps:
         a.append(avp(258, u32(app)))
-    return R.LMsg(1, flags, 257, 0, hbh, e2e, a)
+    return R.LMsg(1, flags, 257, 0, hbh, e2e, a + list(extra))
 
 
-def dwr(host=PEER[0], realm=PEER[1], hbh=2, e2e=2, flags=0x80):
-    return R.LMsg(1, flags, 280, 0, hbh, e2e, origin(host, realm))
+def dwr(host=PEER[0], realm=PEER[1], hbh=2, e2e=2, flags=0x80, extra=()):
+    return R.LMsg(1, flags, 280, 0, hbh, e2e, origin(host, realm) + list(extra))
 
 
-def dwa(host=PEER[0], realm=PEER[1], hbh=2, e2e=2, result=2001):
-    return R.LMsg(1, 0, 280, 0, hbh, e2e, [avp(268, u32(result))] + origin(host, realm))
+def dwa(host=PEER[0], realm=PEER[1], hbh=2, e2e=2, result=2001, extra=()):
+    return R.LMsg(1, 0, 280, 0, hbh, e2e, [avp(268, u32(result))] + origin(host, realm) + list(extra))
+
+
+def origin_state_id(n=1600000000):
+    """the optional Origin-State-Id AVP of CER/CEA/DWR/DWA (RFC 6733 5.3.1, 5.3.2, 5.5.1, 5.5.2)"""
+    return avp(278, u32(n))
 
 
 def dpr(host=PEER[0], realm=PEER[1], hbh=3, e2e=3, cause=0):
